@@ -25,10 +25,10 @@ type Report struct {
 	// RELAXATION (DESIGN.md 3.9): such a leaf does not prevent its list
 	// element from being matched, so everything else about the element is
 	// still compared, and anything else that differs is an unexplained mismatch.
-	Defects []Mismatch
-	DontCare   map[string]int // class -> leaves not compared
-	Defaults   int            // defaultValue leaves judged by the default-value clause
-	Leaves     int            // leaves compared
+	Defects  []Mismatch
+	DontCare map[string]int // class -> leaves not compared
+	Defaults int            // defaultValue leaves judged by the default-value clause
+	Leaves   int            // leaves compared
 }
 
 // Normalize brings a response's data into plain JSON shape
@@ -47,7 +47,7 @@ func Normalize(data interface{}) (interface{}, error) {
 
 type ctx struct {
 	path  string
-	area  string // "" | "roots" | "directive" | "type"
+	area  string // "" | "directive" | "type"
 	what  string // first field below the type / directive element ("args" when below fields.args)
 	intro bool   // inside the description of an introspection type
 	leaf  string // field that produced the value at hand
